@@ -526,7 +526,9 @@ func (f *formatStore) storeUsingNonDeterministicKey(key string, value []byte, ta
 		return fmt.Errorf("unexpectedly found multiple results matching query. Only one is expected")
 	}
 
-	_, formattedValue, formattedTags, err := f.formatter.Format(foundKey, value, tags...)
+	// The formatter gets the unformatted key (it may embed it in the formatted value); only the key under which the
+	// data is stored is the one found above.
+	_, formattedValue, formattedTags, err := f.formatter.Format(key, value, tags...)
 	if err != nil {
 		return fmt.Errorf(failFormatData, err)
 	}
@@ -955,7 +957,7 @@ func (f *formatStore) createFormattedPutOperationUsingNewFormattedKey(resolvedKe
 func (f *formatStore) createFormattedPutOperationUsingExistingFormattedKey(resolvedKeys map[string]string,
 	formattedKey string, operation spi.Operation, tagsToFormat []spi.Tag) (spi.Operation, error) {
 	_, formattedValue, formattedTags, err :=
-		f.formatter.Format(formattedKey, operation.Value, tagsToFormat...)
+		f.formatter.Format(operation.Key, operation.Value, tagsToFormat...)
 	if err != nil {
 		return spi.Operation{}, fmt.Errorf(failFormatData, err)
 	}
